@@ -87,6 +87,10 @@ func (h *inFlightRequestsHandler) onOutgoingFrameEnqueued(f *frame.Frame) (InFli
 		inFlight.startTimeout()
 		return inFlight, nil
 	}
+	if managedStreamId {
+		// the request was refused: give the borrowed stream id back, or it is lost for good
+		_ = h.releaseStreamId(streamId)
+	}
 	return nil, err
 }
 
